@@ -166,6 +166,22 @@ def run(ctx):
         return None
     core.run_stream(ctx, core.Stream("histories of write / load / add-signature / verify (verify_signable, verify_root, verify_delegation) over real files; %d histories, up to %d steps; payloads with floats, non-ASCII, nesting; shuffled key orders"
                                      % (nh, maxlen), cases, rel, oracle, nontrivial=lambda c, i, m: "sign" in c["meta"]["ops"] or "verify" in c["meta"]["ops"]))
+    # "any metadata": values that are not envelopes, in particular top-level strings whose characters spell JSON text, an envelope, a number
+    plain = ["{}", "[1]", "{\"signatures\": {}, \"signed\": 1}", " {\"a\": 1}", "{oops", "[", "12", "null", "\"x\"", "", "é\ud800", "{\n  \"a\": 1\n}",
+             [], [1, [2.5, None]], 12, 1.5, None, True, {"a": {"b": []}}, ["{}"], {"k": "[1]"}]
+    vcases = [{"w": wire.case("persist_history", v, [["write"], ["load"], ["write"], ["load"]]), "meta": {"ops": ["write", "load"]}} for v in plain]
+
+    def voracle(c, io):
+        _, init, _ops = wire.dec(c["w"])
+        if not io.startswith("O"):
+            return "storing and loading a JSON value failed: %s" % core.impl_class(io)
+        out = wire.dec(io[1:])
+        if out[-2] != E.canon(init):
+            return "the file written for %r is not the canonical serialization of that value" % (init,)
+        if out[-1] != E.canon(init):
+            return "%r does not load back as an equal JSON value (canonical bytes %r)" % (init, out[-1][:60])
+        return None
+    core.run_stream(ctx, core.Stream("write/load cycles of values that are not envelopes (top-level strings that spell JSON text, lists, numbers, null)", vcases, rel, voracle))
     # the same histories in a process whose locale is not UTF-8 (LC_ALL=C, UTF-8 mode off): what a file means must not depend on it
     core.run_stream(ctx, core.Stream("the same histories under LC_ALL=C with PYTHONUTF8=0 (files in raw UTF-8 from other tools included)", cases[: (30 if ctx.quick else 300)], rel, oracle,
                                      env={"LC_ALL": "C", "LANG": "C", "PYTHONUTF8": "0", "PYTHONIOENCODING": "utf-8"}))
